@@ -2,12 +2,12 @@ package main
 
 import (
 	"bytes"
-	"strconv"
 	"compress/gzip"
 	"fmt"
 	"os"
 	"path/filepath"
 	"sort"
+	"strconv"
 	"strings"
 	"sync/atomic"
 	"time"
